@@ -216,7 +216,7 @@ PRPrograms(z) == {
        SIf(0, Eq(Idx(Var("x"), Var("y")), N(30)), <<Say(Pro)>>, FALSE, <<>>), Put(Idx(Var("x"), Var("y")), "z"), SInc(0, Pro, 5), Say(Var("z")), Say(Var("y"))>> >>,
   \* an element WRITE through the pronoun: the subscript is evaluated first, so the pronoun is whatever the subscript named last
   << <<SRock(0, Var("x"), <<N(10), N(20)>>), SRock(0, Var("y"), <<N(0)>>), Say(Var("x")), SAssign(0, Idx(Pro, N(1)), "none", <<N(7)>>), Say(Var("x")),
-       Say(Var("x")), SAssign(0, Idx(Pro, Idx(Var("y"), N(0))), "none", <<N(8)>>), Say(Var("x")), Say(Var("y"))>> >>,
+       Say(Var("x")), SAssign(0, Idx(Pro, S("k")), "none", <<N(8)>>), Say(Var("x")), Say(Idx(Var("x"), S("k"))), Say(Var("y"))>> >>,
   << <<SRock(0, Var("x"), <<N(10), N(20)>>), Put(N(1), "y"), Say(Var("x")), SAssign(0, Idx(Pro, Var("y")), "none", <<N(7)>>), SayS("unreachable")>> >>,
   << <<SFunc(0, "f", <<"p">>, <<Ret(Var("p"))>>)>>,
      <<SRock(0, Var("x"), <<N(10), N(20)>>), Say(Var("x")), SAssign(0, Idx(Pro, Call("f", <<N(0)>>)), "none", <<N(7)>>), SayS("unreachable")>> >>,
